@@ -60,6 +60,14 @@ type vCase struct {
 	// order of the seg lines, with the real s3Lister as fallback; "stale" (sql) = the same with a
 	// manifest that is never refreshed after the first tick
 	lister string
+	// real-lister cases: page = keys per ListObjectsV2 page of the in-process S3 endpoint (0: 1000, as S3);
+	// fill = filler objects (not segment keys) sorting before every segment, so that a 1000-key page boundary can be
+	// placed anywhere; decoder = "real": the .kfs objects are real segments and the module's REAL s3Decoder
+	// downloads + decodes them inside the loop (sql); s3 items c<i> / h<i> cut that tick's download of segment i
+	// mid-body (one byte short / half), Content-Length announcing the whole object
+	page    int
+	fill    int
+	decoder string
 	segs    []vSeg
 	ops     []vOp
 	head    []string // the case/seg lines, echoed
@@ -145,6 +153,12 @@ func vParseCases(r io.Reader) ([]*vCase, error) {
 					cur.stats = strings.TrimPrefix(opt, "stats=")
 				case strings.HasPrefix(opt, "lister="):
 					cur.lister = strings.TrimPrefix(opt, "lister=")
+				case strings.HasPrefix(opt, "page="):
+					cur.page, _ = strconv.Atoi(strings.TrimPrefix(opt, "page="))
+				case strings.HasPrefix(opt, "fill="):
+					cur.fill, _ = strconv.Atoi(strings.TrimPrefix(opt, "fill="))
+				case strings.HasPrefix(opt, "decoder="):
+					cur.decoder = strings.TrimPrefix(opt, "decoder=")
 				default:
 					return nil, fmt.Errorf("bad case line %q", sc.Text())
 				}
